@@ -44,7 +44,7 @@ func runC03(c *Ctx) {
 		c03Run(c, wrap.Case, nil)
 		return
 	}
-	files, _ := filepathGlob("/verif/harness/corpus/C03/*.json")
+	files, _ := filepathGlob(verifRoot + "/harness/corpus/C03/*.json")
 	for _, f := range files {
 		var wrap struct{ Case c03Case `json:"case"` }
 		b, err := osReadFile(f)
